@@ -46,6 +46,9 @@ pub enum Variant {
     B4s,
     /// 256 filler bytes per letter, block b = block a with every 4th byte changed
     W256,
+    /// 128 KiB per letter, extremely compressible: block a = zeros, block b = one 16-byte record
+    /// repeated 8192 times (new content far larger than anything its compressed blocks suggest)
+    Z128k,
 }
 
 impl Variant {
@@ -55,6 +58,7 @@ impl Variant {
             Variant::B4 => "b4",
             Variant::B4s => "b4s",
             Variant::W256 => "w256",
+            Variant::Z128k => "z128k",
         }
     }
     fn from_name(s: &str) -> Option<Variant> {
@@ -63,6 +67,7 @@ impl Variant {
             "b4" => Variant::B4,
             "b4s" => Variant::B4s,
             "w256" => Variant::W256,
+            "z128k" => Variant::Z128k,
             _ => return None,
         })
     }
@@ -74,6 +79,10 @@ fn blocks(v: Variant, seed: u64) -> (Vec<u8>, Vec<u8>) {
         Variant::B1 => (vec![b'a'], vec![b'b']),
         Variant::B4 => (b"aaaa".to_vec(), b"bbbb".to_vec()),
         Variant::B4s => (b"abcd".to_vec(), b"abed".to_vec()),
+        Variant::Z128k => {
+            let rec = SplitMix(seed ^ 0xC16_0128).bytes(16);
+            (vec![0u8; 128 * 1024], rec.iter().copied().cycle().take(128 * 1024).collect())
+        }
         Variant::W256 => {
             let a = SplitMix(seed ^ 0xC16_0256).bytes(256);
             let mut b = a.clone();
@@ -249,6 +258,7 @@ impl GenCase {
             Variant::B1 => 1,
             Variant::B4 | Variant::B4s => 4,
             Variant::W256 => 256,
+            Variant::Z128k => 128 * 1024,
         };
         ((self.old.len() + self.new.len()) * w, self.variant, self.old.len(), self.old.clone(), self.new.clone(), self.builder, self.mdbs)
     }
@@ -454,8 +464,8 @@ fn builder_grid() -> Vec<(Builder, usize)> {
 fn run_gen(rep: &Report, tier: Tier, seed: u64, deadline: Instant) -> Value {
     // (variant, letter bound)
     let plan: Vec<(Variant, usize)> = match tier {
-        Tier::Quick => vec![(Variant::B1, 6), (Variant::B4, 6), (Variant::B4s, 5), (Variant::W256, 5)],
-        Tier::Thorough => vec![(Variant::B1, 8), (Variant::B4, 8), (Variant::B4s, 7), (Variant::W256, 6)],
+        Tier::Quick => vec![(Variant::B1, 6), (Variant::B4, 6), (Variant::B4s, 5), (Variant::W256, 5), (Variant::Z128k, 1)],
+        Tier::Thorough => vec![(Variant::B1, 8), (Variant::B4, 8), (Variant::B4s, 7), (Variant::W256, 6), (Variant::Z128k, 2)],
     };
     let grid = builder_grid();
     let mut tasks: Vec<(Variant, usize, usize)> = Vec::new(); // (variant, bound, old index)
@@ -469,6 +479,7 @@ fn run_gen(rep: &Report, tier: Tier, seed: u64, deadline: Instant) -> Value {
     // long tasks first (better balance): sort by descending old length × block width
     let width = |v: Variant| match v {
         Variant::W256 => 256usize,
+        Variant::Z128k => 128 * 1024,
         Variant::B1 => 1,
         _ => 4,
     };
@@ -489,7 +500,9 @@ fn run_gen(rep: &Report, tier: Tier, seed: u64, deadline: Instant) -> Value {
             let new = expand(new_l, &blk);
             // distinct patch bytes of this pair → evaluation
             let mut cache: Vec<(Vec<u8>, PatchEval)> = Vec::new();
-            for (b, m) in &grid {
+            // the 128 KiB blocks: large diff blocks only (a block size of 1 means 10^5 control triples)
+            let big_grid = [(Builder::Default, 1usize << 20), (Builder::Simple, 1 << 20), (Builder::Chunked, 1 << 20), (Builder::Optimized, 1 << 20), (Builder::Chunked, 4096), (Builder::Optimized, 4096)];
+            for (b, m) in if v == Variant::Z128k { &big_grid[..] } else { &grid[..] } {
                 let case = GenCase { variant: v, old: strs[oi].clone(), new: new_l.clone(), builder: *b, mdbs: *m };
                 sh.builds += 1;
                 let patch = match build_step(&case, &old, &new) {
